@@ -673,6 +673,8 @@ main (int argc, char **argv)
 		return cmd_c03consts () ;
 	if (!strcmp (argv [1], "routes"))
 		return cmd_routes () ;
+	if (!strcmp (argv [1], "ieee"))
+		return cmd_ieee (argc - 2, argv + 2) ;
 	fprintf (stderr, "sfh: unknown subcommand %s\n", argv [1]) ;
 	return 2 ;
 }
